@@ -41,7 +41,7 @@ func (s SSHConfig) Get(id string) (string, error) {
 
 // MarshalYAML makes SSHKey implement yaml.Marshaller
 func (s SSHKey) MarshalYAML() (interface{}, error) {
-	if s.Path == "" {
+	if s.Path == "" && s.ID == "default" {
 		return s.ID, nil
 	}
 	return fmt.Sprintf("%s=%s", s.ID, s.Path), nil
@@ -49,7 +49,8 @@ func (s SSHKey) MarshalYAML() (interface{}, error) {
 
 // MarshalJSON makes SSHKey implement json.Marshaller
 func (s SSHKey) MarshalJSON() ([]byte, error) {
-	if s.Path == "" {
+	// only the default agent may be named without a path: any other key is written `id=`
+	if s.Path == "" && s.ID == "default" {
 		return []byte(fmt.Sprintf(`%q`, s.ID)), nil
 	}
 	return json.Marshal(fmt.Sprintf("%s=%s", s.ID, s.Path))
